@@ -1,4 +1,4 @@
 SPECIFICATION Spec
-CONSTANTS MaxExt = 7  Finalizers = FALSE  Extra = FALSE
+CONSTANTS MaxExt = 7  Finalizers = TRUE  Extra = TRUE
 INVARIANTS FinBeforeOut C06
 CHECK_DEADLOCK FALSE
